@@ -164,6 +164,20 @@ def MP.status (m : MP) : Nat :=
 
 def MP.sent (m : MP) : Nat := (m.ledger.filter (·.st != "F")).foldl (fun acc e => acc + e.amt) 0
 
+/-- a successful concurrent call: payment, attempt id (0 if none), amount / outcome tag, and
+    the stamps taken before the call was issued and after it returned. -/
+structure CEv where
+  h : Nat
+  id : Nat := 0
+  amt : Nat := 0
+  st : String := ""
+  s : Nat
+  e : Nat
+  deriving Repr
+
+/-- `a` returned before `b` was issued. -/
+def CEv.before (a b : CEv) : Bool := a.e < b.s
+
 structure St where
   backend : Backend := .kv
   caseId : String := "0"
@@ -194,11 +208,17 @@ structure St where
   errKinds : List String := []
   dupAdmitted : Nat := 0
   foreignResolved : Nat := 0
+  -- `kind=contract` cases must respect the caller contract of `backend_equivalence`
+  contract : Bool := false
+  contractOps : Nat := 0
   -- concurrent tier (monitor only)
   conc : Bool := false
-  cRegs : List (Nat × Nat × Nat) := []       -- (hash, id, amt) of admitted registrations
-  cRes : List (Nat × Nat × String) := []     -- (hash, id, "S"|"F") of successful resolutions
-  cInit : List Nat := []                     -- hashes whose InitPayment succeeded
+  cRegs : List CEv := []                     -- admitted registrations
+  cRes : List CEv := []                      -- successful resolutions (st = "S"|"F")
+  cInit : List CEv := []                     -- successful InitPayment calls
+  cFail : List CEv := []                     -- successful Fail calls
+  cDel : List CEv := []                      -- successful DeletePayment calls
+  cDelFailed : List CEv := []                -- successful DeleteFailedAttempts calls
   cFinal : List (Nat × Nat) := []            -- hash ↦ final status
   concCases : Nat := 0
   concOps : Nat := 0
@@ -289,9 +309,10 @@ def bumpErr (s : St) (impl : String) : St :=
   else { s with errOps := s.errOps + 1,
                 errKinds := if s.errKinds.contains impl then s.errKinds else impl :: s.errKinds }
 
-/-- concurrent tier: no model replay; the dump-local clauses on every returned payment and an
-    order-insensitive ledger check on the quiescent final state. -/
-def stepConc (s : St) (ws : List String) (isFinal : Bool) : IO St := do
+/-- concurrent tier: no model replay; the dump-local clauses on every returned payment and
+    order-insensitive checks (using the issue / return stamps for happens-before) on the
+    quiescent final state. -/
+def stepConc (s : St) (ws : List String) (isFinal : Bool) (sS eS : Nat) : IO St := do
   let opName := ws.headD "?"
   let ans := answer ws
   let impl := ans.headD "?"
@@ -303,55 +324,98 @@ def stepConc (s : St) (ws : List String) (isFinal : Bool) : IO St := do
   match dump with
   | some d => if opName != "inflight" then s ← checkDump s hN d false
   | none => pure ()
+  let ev : CEv := { h := hN, id := (kvNat? ws "id").getD 0, s := sS, e := eS }
   match opName with
   | "init" =>
     if impl == "ok" then
-      if s.cInit.contains hN then
-        s ← monitor s "no-reinit" s!"h={hN} InitPayment succeeded twice under concurrency"
-      s := { s with cInit := hN :: s.cInit, reinitOk := s.reinitOk + 1 }
+      s := { s with cInit := ev :: s.cInit, reinitOk := s.reinitOk + 1 }
     else
       s := { s with reinitRefused := s.reinitRefused + 1 }
   | "reg" =>
     if impl == "ok" then
-      s := { s with regOk := s.regOk + 1,
-                    cRegs := (hN, (kvNat? ws "id").getD 0, (kvNat? ws "amt").getD 0) :: s.cRegs }
+      s := { s with regOk := s.regOk + 1, cRegs := { ev with amt := (kvNat? ws "amt").getD 0 } :: s.cRegs }
     else if impl == "ValueExceedsAmt" then
       s := { s with regExceed := s.regExceed + 1 }
   | "settle" | "failatt" =>
     if impl == "ok" then
-      let id := (kvNat? ws "id").getD 0
       let st := if opName == "settle" then "S" else "F"
       s := if opName == "settle" then { s with settles := s.settles + 1 } else { s with failAtts := s.failAtts + 1 }
-      if s.cRes.any (fun (_, i, _) => i == id) then
-        s ← monitor s "resolve-gate" s!"h={hN} attempt {id} resolved twice under concurrency"
-      s := { s with cRes := (hN, id, st) :: s.cRes }
+      if s.cRes.any (fun r => r.id == ev.id) then
+        s ← monitor s "resolve-gate" s!"h={hN} attempt {ev.id} resolved twice under concurrency"
+      s := { s with cRes := { ev with st := st } :: s.cRes }
+  | "fail" =>
+    if impl == "ok" then
+      s := { s with fails := s.fails + 1, cFail := ev :: s.cFail }
+  | "del" =>
+    if impl == "ok" then
+      s := { s with dels := s.dels + 1, cDel := ev :: s.cDel }
+  | "delfailed" =>
+    if impl == "ok" then
+      s := { s with dels := s.dels + 1, cDelFailed := ev :: s.cDelFailed }
   | "fetch" =>
     if isFinal then
+      let inits := s.cInit.filter (·.h == hN)
+      let dels := s.cDel.filter (·.h == hN)
+      let fails := s.cFail.filter (·.h == hN)
+      let regs := s.cRegs.filter (·.h == hN)
+      -- no_reinit: at most one InitPayment may succeed, unless a DeletePayment or a Fail of that
+      -- hash was issued before the extra one returned (then a re-initiation can be legitimate)
+      if inits.length > 1 then
+        let unjustified := inits.filter (fun i =>
+          !(dels.any (fun d => d.s < i.e)) && !(fails.any (fun f => f.s < i.e)))
+        if unjustified.length > 1 then
+          s ← monitor s "no-reinit" s!"h={hN} InitPayment succeeded {inits.length} times under concurrency with no Fail / DeletePayment that could explain it"
+      -- register_gate: no registration issued after a Fail / DeletePayment returned (unless an
+      -- InitPayment of that hash could have happened in between)
+      for r in regs do
+        for f in fails do
+          if f.before r && !(inits.any (fun i => f.s < i.e)) then
+            s ← monitor s "register-gate" s!"h={hN} attempt {r.id} admitted (issued at {r.s}) after Fail had returned (at {f.e})"
+        for d in dels do
+          if d.before r && !(inits.any (fun i => d.s < i.e)) then
+            s ← monitor s "register-gate" s!"h={hN} attempt {r.id} admitted (issued at {r.s}) after DeletePayment had returned (at {d.e})"
+      -- attempt ids are unique within a concurrent case
+      for r in s.cRes do
+        if r.h == hN && !(s.cRegs.any (fun x => x.id == r.id)) then
+          s ← monitor s "resolve-gate" s!"h={hN} attempt {r.id} resolved but its registration was not admitted"
+        if r.h != hN && regs.any (fun x => x.id == r.id) then
+          if s.backend == .sql then
+            s ← monitor s "resolve-foreign-attempt" s!"h={r.h} id={r.id}: the call resolved an attempt of payment h={hN}"
+          else
+            s ← monitor s "resolve-gate" s!"h={r.h} id={r.id}: the call resolved an attempt of payment h={hN}"
+      -- one epoch only (never deleted, initiated once): the stored attempts must be exactly the
+      -- admitted ones with their resolutions; failed ones may have been removed by a
+      -- DeleteFailedAttempts that had not returned before the FailAttempt was issued
+      let oneEpoch := dels.isEmpty && inits.length ≤ 1
       match dump with
       | none =>
-        if s.cInit.contains hN then
-          s ← monitor s "fetch-truth" s!"h={hN} final fetch={impl} for an initiated payment"
+        if !inits.isEmpty && dels.isEmpty then
+          s ← monitor s "fetch-truth" s!"h={hN} final fetch={impl} for an initiated payment that was never deleted"
       | some d =>
-        if !(s.cInit.contains hN) then
+        if inits.isEmpty then
           s ← monitor s "fetch-truth" s!"h={hN} a payment exists that no InitPayment created"
-        let regs := s.cRegs.filter (fun (h, _, _) => h == hN)
-        -- (lines are in completion order, so this is checked once everything has been logged)
-        -- attempt ids are unique within a concurrent case
-        for (h, i, _) in s.cRes do
-          if h == hN && !(s.cRegs.any (fun (_, j, _) => j == i)) then
-            s ← monitor s "resolve-gate" s!"h={hN} attempt {i} resolved but its registration was not admitted"
-          if h != hN && regs.any (fun (_, j, _) => j == i) then
-            s ← monitor s "resolve-foreign-attempt" s!"h={h} id={i}: the call resolved an attempt of payment h={hN}"
-        let exp : List LE := regs.map (fun (_, id, amt) =>
-          let st := match s.cRes.find? (fun (_, i, _) => i == id) with
-            | some (_, _, st) => st
-            | none => "I"
-          ⟨id, amt, ⟨false, 0, none⟩, st⟩)
-        if dumpKey d != ledgerKey exp then
-          s ← monitor s "attempts-track" s!"h={hN} final attempts {dumpKey d} differ from the admitted history {ledgerKey exp}"
-        let sent := (exp.filter (·.st != "F")).foldl (fun acc e => acc + e.amt) 0
-        if sent > d.value then
-          s ← monitor s "never-overpay" s!"h={hN} concurrently admitted settled+inflight amounts {sent} > value={d.value}"
+        if oneEpoch then
+          let dfs := s.cDelFailed.filter (·.h == hN)
+          let exp : List (LE × Bool × Bool) := regs.map (fun r =>
+            match s.cRes.find? (fun x => x.id == r.id) with
+            | some x =>
+              let failed := x.st == "F"
+              -- may be absent: a DeleteFailedAttempts returned after the FailAttempt was issued
+              let mayGo := failed && dfs.any (fun df => x.s < df.e)
+              -- must be absent: a DeleteFailedAttempts was issued after the FailAttempt returned
+              let mustGo := failed && dfs.any (fun df => x.before df)
+              (⟨r.id, r.amt, ⟨false, 0, none⟩, x.st⟩, mayGo, mustGo)
+            | none => (⟨r.id, r.amt, ⟨false, 0, none⟩, "I"⟩, false, false))
+          let have_ := dumpKey d
+          let mandatory := ledgerKey ((exp.filter (fun (_, mayGo, _) => !mayGo)).map (·.1))
+          let allowed := ledgerKey ((exp.filter (fun (_, _, mustGo) => !mustGo)).map (·.1))
+          if !(mandatory.all have_.contains) || !(have_.all allowed.contains) then
+            s ← monitor s "attempts-track" s!"h={hN} final attempts {have_} differ from the admitted history (required {mandatory}, allowed {allowed})"
+          let sent := ((exp.map (·.1)).filter (·.st != "F")).foldl (fun acc e => acc + e.amt) 0
+          if sent > d.value then
+            s ← monitor s "never-overpay" s!"h={hN} concurrently admitted settled+inflight amounts {sent} > value={d.value}"
+          if d.reason.isSome != !fails.isEmpty then
+            s ← monitor s "attempts-track" s!"h={hN} final failure reason set={d.reason.isSome} but {fails.length} Fail calls succeeded"
         s := { s with cFinal := (hN, d.st) :: s.cFinal }
   | "inflight" =>
     if isFinal && impl == "ok" then
@@ -371,17 +435,21 @@ def step (s : St) (line : String) : IO St := do
   | "FACT" :: _ => return s
   | "CASE" :: id :: rest =>
     let isConc := (kv? rest "kind") == some "conc"
+    let s := { s with contract := (kv? rest "kind") == some "contract" }
     let s := { s with caseId := id, store := Store.empty, mon := [], lastSt := [], dup := false,
                       cases := s.cases + 1, conc := isConc, cRegs := [], cRes := [], cInit := [],
-                      cFinal := [], concCases := s.concCases + (if isConc then 1 else 0) }
+                      cFail := [], cDel := [], cDelFailed := [], cFinal := [], concCases := s.concCases + (if isConc then 1 else 0) }
     return s
   | ["END"] => return s
   | [] => return s
   | opName :: _ =>
     if s.conc then
       let isFinal := opName == "final"
-      let ws' := if isFinal || opName.startsWith "g=" then ws.drop 1 else ws
-      return ← stepConc s ws' isFinal
+      let stamped := opName.startsWith "g="
+      let ws' := if isFinal then ws.drop 1 else if stamped then ws.drop 3 else ws
+      let sS := if stamped then (kvNat? (ws.take 3) "s").getD 0 else 0
+      let eS := if stamped then (kvNat? (ws.take 3) "e").getD 0 else 0
+      return ← stepConc s ws' isFinal sS eS
     let ans := answer ws
     let impl := ans.headD "?"
     let implStr := " ".intercalate ans
@@ -420,6 +488,11 @@ def step (s : St) (line : String) : IO St := do
       match modelOp with
       | none => s ← mismatch s s!"unparsed line: {line.take 80}"
       | some op =>
+        if s.contract then
+          -- the hypothesis `respects` of `backend_equivalence`, evaluated on the model store
+          if !opOk s.store op then
+            s ← mismatch s s!"{opName} h={hN}: a contract case issued an operation outside the caller contract (opOk = false)"
+          s := { s with contractOps := s.contractOps + 1 }
         let (st', r) := C16.step s.backend s.store op
         let m := resStr r
         if m != implStr then
@@ -458,6 +531,11 @@ def step (s : St) (line : String) : IO St := do
             s ← monitor s "register-gate" s!"h={hN} attempt {id} admitted in status {m.status}"
           if !shapeConsistent m.value amt shape (m.ledger.filter (·.st == "I")) then
             s ← monitor s "register-consistency" s!"h={hN} attempt {id} ({shapeStr shape}, amt={amt}) is inconsistent with the in-flight attempts / payment value {m.value}"
+          -- the amount gate on what the store has recorded so far, BEFORE the ledger is touched
+          -- (never tagged: a broken gate is a violation on the duplicate-id path too)
+          let gateHeld := m.sent + amt ≤ m.value
+          if !gateHeld then
+            s ← monitor s "register-gate" s!"h={hN} attempt {id} amt={amt} admitted although recorded settled+inflight={m.sent} + amt > value={m.value}"
           let mut m := m
           if m.ledger.any (·.id == id) then
             -- duplicate attempt id admitted: the store overwrote the record of an attempt
@@ -475,7 +553,7 @@ def step (s : St) (line : String) : IO St := do
           if m.sent + m.lost > m.value then
             -- known only when the stored attempts alone are within the amount and the excess
             -- comes from records overwritten by a duplicate id
-            s ← monitor s "never-overpay" s!"h={hN} admitted settled+inflight amounts {m.sent + m.lost} (of which {m.lost} no longer visible in the store) > value={m.value} after attempt {id} amt={amt}" (m.sent ≤ m.value && m.lost > 0)
+            s ← monitor s "never-overpay" s!"h={hN} admitted settled+inflight amounts {m.sent + m.lost} (of which {m.lost} no longer visible in the store) > value={m.value} after attempt {id} amt={amt}" (gateHeld && m.sent ≤ m.value && m.lost > 0)
           if m.sent == m.value then s := { s with regFull := s.regFull + 1 }
           s := { s with mon := mset s.mon hN m }
       else if impl == "ValueExceedsAmt" then
@@ -495,7 +573,15 @@ def step (s : St) (line : String) : IO St := do
             s := { s with mon := mset s.mon hN m }
           else
             -- not an in-flight attempt of this payment: does it belong to another payment?
-            match s.mon.find? (fun (k, o) => k != hN && o.ledger.any (fun e => e.id == id && e.st == "I")) with
+            -- (only the SQL store addresses attempts by id alone, and then the payment returned for
+            -- hN is unchanged; anything else is an unexplained resolution of hN)
+            let unchanged := match dump with
+              | some d => dumpKey d == ledgerKey m.ledger
+              | none => false
+            let owner := if s.backend == .sql && unchanged then
+                s.mon.find? (fun (k, o) => k != hN && o.ledger.any (fun e => e.id == id && e.st == "I"))
+              else none
+            match owner with
             | some (k, o) =>
               s := { s with foreignResolved := s.foreignResolved + 1 }
               s ← monitor s "resolve-foreign-attempt" s!"h={hN} id={id}: the call resolved an attempt of payment h={k}"
@@ -566,6 +652,7 @@ def main (args : List String) : IO Unit := do
   IO.println s!"STAT statuses_seen={s.stSeen.length}"
   IO.println s!"STAT dup_ids_admitted={s.dupAdmitted}"
   IO.println s!"STAT foreign_attempts_resolved={s.foreignResolved}"
+  IO.println s!"STAT contract_ops_respecting={s.contractOps}"
   IO.println s!"STAT concurrent_cases={s.concCases}"
   IO.println s!"STAT concurrent_ops={s.concOps}"
   IO.println s!"STAT mismatches={s.mismatches}"
